@@ -71,8 +71,15 @@ def _execute(line: str):
     extra = {}
     if op in ("rand", "ror", "rxor"):
         y = _right(unwire(b), rkind)
-        out = guarded(lambda: {"rand": lambda: y & x, "ror": lambda: y | x, "rxor": lambda: y ^ x}[op](), wire)
+        refl = {"rand": lambda p, q: p & q, "ror": lambda p, q: p | q, "rxor": lambda p, q: p ^ q}[op]
+        out = guarded(lambda: refl(y, x), wire)
         extra["left_after"] = wire(x)
+        # the operands are never modified - that includes the VALUE a literal stands for: the same expression evaluated again
+        # (fresh promotable operand, same text) gives the same result, and the literal still parses to its bits
+        extra["again"] = guarded(lambda: refl(_right(unwire(b), rkind), mk(cls, a)), wire)
+        if rkind == "str":
+            extra["literal_after"] = guarded(lambda: Bits(_right(unwire(b), "str")), wire)
+            extra["literal_expected"] = "ok " + b
     elif op in ("and", "or", "xor", "iand", "ior", "ixor"):
         y = _right(unwire(b), rkind)
         ybefore = wire(y) if hasattr(y, "bin") else None
@@ -82,6 +89,11 @@ def _execute(line: str):
         out = guarded(lambda: f(x, y), wire)
         if op in ("and", "or", "xor"):
             extra["left_after"] = wire(x)
+            if not rkind.startswith("obj:"):
+                extra["again"] = guarded(lambda: f(mk(cls, a), _right(unwire(b), rkind)), wire)
+                if rkind == "str":
+                    extra["literal_after"] = guarded(lambda: Bits(_right(unwire(b), "str")), wire)
+                    extra["literal_expected"] = "ok " + b
         else:
             if out.startswith("err"):
                 extra["left_after"] = wire(x)
@@ -165,6 +177,10 @@ def oracle(line: str, out: str, extra: dict):
         return f"left operand changed from {wire(a)} to {extra['left_after']}"
     if "right_after" in extra and extra["right_after"] != extra["right_before"]:
         return f"right operand changed from {extra['right_before']} to {extra['right_after']}"
+    if "again" in extra and extra["again"] != out:
+        return f"evaluating the same expression again gives {extra['again']} instead of {out}"
+    if "literal_after" in extra and extra["literal_after"] != extra["literal_expected"]:
+        return f"the literal operand now parses to {extra['literal_after']} instead of {extra['literal_expected']}"
     if extra.get("aliased_result"):
         return "operator on a mutable object returned the operand itself"
     return None
